@@ -30,6 +30,8 @@ type LetSpec struct {
 type LoopSpec struct {
 	Invariants []Clause
 	Decreases  []Clause
+	Steps      []Clause // relate the state at the end of an iteration to the state at its start (old)
+	Exits      []Clause // hold whenever the loop is left through its condition or a break
 }
 
 // RetSpec is a postcondition of one return statement (k-th in source order): it may
@@ -100,7 +102,7 @@ var clauseKeywords = map[string]bool{
 	"trusted": true, "param": true, "let": true, "unclaimed": true,
 }
 
-var labelRe = regexp.MustCompile(`^(requires|ensures|shows|invariant)\[([A-Za-z0-9_\-]+)\]$`)
+var labelRe = regexp.MustCompile(`^(requires|ensures|shows|invariant|assert|step|exit)\[([A-Za-z0-9_\-]+)\]$`)
 
 // parseContractFile reads the //@ lines of a file.
 func parseContractFile(path string) (*ContractFile, error) {
@@ -330,6 +332,10 @@ func addClause(cf *ContractFile, c *Contract, words []string, text, path string,
 			ls.Invariants = append(ls.Invariants, cl)
 		case "decreases":
 			ls.Decreases = append(ls.Decreases, cl)
+		case "step":
+			ls.Steps = append(ls.Steps, cl)
+		case "exit":
+			ls.Exits = append(ls.Exits, cl)
 		default:
 			return fmt.Errorf("%s:%d: bad loop clause kind %q", path, line, kind)
 		}
@@ -357,6 +363,14 @@ func addClause(cf *ContractFile, c *Contract, words []string, text, path string,
 		c.Returns = append(c.Returns, RetSpec{K: k, Assert: cl})
 	case "call":
 		// call callee#k assert expr
+		callLab := ""
+		if len(words) >= 4 {
+			if m := labelRe.FindStringSubmatch(words[2]); m != nil && m[1] == "assert" {
+				callLab = m[2]
+				text = strings.Replace(text, " "+words[2]+" ", " assert ", 1)
+				words[2] = "assert"
+			}
+		}
 		if len(words) < 4 || words[2] != "assert" {
 			return fmt.Errorf("%s:%d: bad call clause", path, line)
 		}
@@ -371,7 +385,7 @@ func addClause(cf *ContractFile, c *Contract, words []string, text, path string,
 			callee = callee[:j]
 		}
 		idx := strings.Index(text, " assert ")
-		cl, err := mkClause(strings.TrimSpace(text[idx+8:]), path, line, "")
+		cl, err := mkClause(strings.TrimSpace(text[idx+8:]), path, line, callLab)
 		if err != nil {
 			return err
 		}
